@@ -40,12 +40,44 @@ def showStep (r : Obs × List Net) : String :=
     | .error e => showErr e
   obs ++ "|" ++ showNets (fullSort r.2) ++ "|" ++ showBool (descending (availableSubnets r.2))
 
+/-- driver-only guard (not part of the model): a call that would make the model enumerate more
+    than 2^16 blocks is answered `?toolarge` and ends the history.  The harness never generates
+    such calls for the real code; a changed implementation can lead the generator there. -/
+def tooLarge (s : List Net) : Op → Bool
+  | .extract pfx count hint =>
+    (availableSubnets (reorder s hint)).any (fun c =>
+      match Subnet.subnetCount c pfx count with
+      | .ok (some k) => k > 65536
+      | _ => false)
+  | _ => false
+
+def runGuarded (s : List Net) : List Op → List String
+  | [] => []
+  | op :: ops =>
+    if tooLarge s op then ["?toolarge"]
+    else
+      let r := step s op
+      showStep (r.2, r.1) :: runGuarded r.1 ops
+
+/-- `run` and the guarded loop agree whenever the guard does not fire -/
+theorem runGuarded_eq (s : List Net) (ops : List Op) :
+    runGuarded s ops = (run s ops).map showStep ∨ "?toolarge" ∈ runGuarded s ops := by
+  induction ops generalizing s with
+  | nil => left; rfl
+  | cons op ops ih =>
+    unfold runGuarded
+    split
+    · right; simp
+    · rcases ih (step s op).1 with h | h
+      · left; simp [run, h]
+      · right; simp [h]
+
 def handle (op : String) (args : List String) : Option String :=
   match op, args with
   | "splitter", [base, ops] => do
     let base ← parseNet base
     let ops ← (← parseList ops).mapM parseOp
-    pure (";".intercalate ((run (init base) ops).map showStep))
+    pure (";".intercalate (runGuarded (init base) ops))
   | _, _ => none
 
 end NV.Driver.C20
